@@ -39,6 +39,20 @@ theorem rerunIn_absent (e : Nat) (w : Int) : ∀ (t : RState) (st : St), e ∉ e
     intro st h
     have : ¬ e' = e := fun hh => h (by simp [effsOf, hh])
     simp [rerunIn, this]
+  | scope m sid isSig inner ih =>
+    intro st h
+    simp only [effsOf] at h
+    simp only [rerunIn, ih st h]
+  | rows e' sel lists row ks items ih =>
+    intro st h
+    simp only [effsOf, List.mem_cons, not_or] at h
+    have : ¬ e' = e := fun hh => h.1 hh.symm
+    simp only [rerunIn, this, if_false, ih st h.2]
+  | rowCons k r rest ihr ihrest =>
+    intro st h
+    simp only [effsOf, List.mem_append, not_or] at h
+    simp only [rerunIn, ihr st h.1, ihrest st h.2]
+  | rowNil => intro st _; rfl
 
 /-- the result of re-running effect `e` inside the tree `t` (a state of `v`) -/
 structure Rerun (K : Nat) (P : St → EP) (s : St) (t : RState) (v : View) (t' : RState) (s' : St) : Prop where
@@ -422,6 +436,8 @@ theorem rerunIn_spec : ∀ (v : View) (t : RState), GoodP P0 v t → v.wf K = tr
           exact hP.ext hi hin.ext (hin.not_acted hnd' (by simp) (hbT e' (by simp)).2) (hothers _ _ _ he hpe)
     | _ => simp only [GoodP] at hg
   | «show» c a b _ _ => intro t _ _ hc; simp [View.core] at hc
+  | scope sid d kid _ => intro t _ _ hc; simp [View.core] at hc
+  | forRows sel lists row _ => intro t _ _ hc; simp [View.core] at hc
   | forKeyed sel lists =>
     intro t hg hw _ hnd
     cases t with
